@@ -9,6 +9,7 @@ mod engine;
 mod matcher;
 mod c04;
 mod c08;
+mod c11;
 mod unicode_c;
 
 use std::path::Path;
@@ -20,6 +21,7 @@ fn property(id: &str) -> Option<Property> {
         "C01" | "C02" | "C03" => matcher::property(id),
         "C04" => c04::property(),
         "C08" => c08::property(),
+        "C11" => c11::property(),
         _ => return None,
     })
 }
